@@ -450,6 +450,12 @@ func (m *Mint) MintTokens(mintTokensRequest nut04.PostMintBolt11Request) (cashu.
 				B_s[i] = bm.B_
 			}
 
+			// Swap checks for and saves blind signatures under this lock. Hold it
+			// from the check until the signatures are saved so that a swap with
+			// the same blinded messages cannot get in between.
+			m.proofsMu.Lock()
+			defer m.proofsMu.Unlock()
+
 			sigs, err := m.db.GetBlindSignatures(B_s)
 			if err != nil {
 				errmsg := fmt.Sprintf("error getting blind signatures from db: %v", err)
